@@ -146,6 +146,16 @@ def Op.apply [Add α] [Mul α] [Zero α] : Op n α → Vec n α → Vec n α
   | .control U c r tn, ψ => applyControlled U c r tn ψ
   | .measure s o, ψ => project s o ψ
 
+/-- projector on the outcome `o` of the qubits `s`, as a (diagonal) matrix -/
+def projEmbed [Zero α] [One α] (s : Fin m → Fin n) (o : Bits m) : Mat n α :=
+  fun x x' => if Bits.beq x x' && Bits.beq (x.sel s) o then 1 else 0
+
+/-- the `2^n × 2^n` operator an entry of the gate list stands for -/
+def Op.matrix [Zero α] [One α] : Op n α → Mat n α
+  | .unitary U t => embed U t
+  | .control U c r tn => ctrlEmbed U c fun j => r (tn j)
+  | .measure s o => projEmbed s o
+
 /-- one step on flat arrays -/
 def Op.applyA [Add α] [Mul α] [Zero α] (g : Op n α) (a : Array α) : Array α :=
   tabulate (n := n) (g.apply (lookup a))
